@@ -66,6 +66,16 @@ func (generator *shape) refShape(def ast.Type) string {
 		return "mixed"
 	}
 
+	// references to references: resolved at once (they might be cyclic)
+	if referredObj.Type.IsRef() {
+		resolved := generator.context.ResolveRefs(referredObj.Type)
+		if resolved.IsRef() || resolved.IsStruct() {
+			return "mixed"
+		}
+
+		return generator.typeShape(resolved)
+	}
+
 	return generator.typeShape(referredObj.Type)
 }
 
